@@ -61,9 +61,25 @@ _DIAMOND = {
         {"op": "return", "e": {"var": "x1"}}]],
     "params": {"kinds": {}},
 }
-_EXTRA = [(2, dict(_base, name="diamonds", p_old=0.6, p_let=0.35, p_item=0.4, p_const=0.2, nkinds=1, budget=22)),
+# tasks that return a future they never yielded (`return other.asynq(...)`, `return item`): the future object is the task's
+# value - it is neither started nor computed on the task's behalf (model-blind class: monitors only)
+_RETURNS_FUTURE = {
+    "roots": [[
+        {"op": "yield", "x": "x1", "s": {"tuple": [
+            {"new": {"task": [{"op": "yield", "x": "a1", "s": {"new": {"item": [0, 1, {"set": 1}]}}},
+                              {"op": "let", "h": "h1", "f": {"item": [0, 2, {"set": 2}]}}, {"op": "return", "e": {"handle": "h1"}}]}},
+            {"new": {"task": [{"op": "yield", "x": "b1", "s": {"new": {"item": [0, 3, {"set": 3}]}}},
+                              {"op": "let", "h": "h2", "f": {"task": [{"op": "yield", "x": "c1", "s": {"new": {"item": [0, 4, {"set": 4}]}}}, {"op": "return", "e": {"var": "c1"}}]}},
+                              {"op": "return", "e": {"handle": "h2"}}]}},
+            {"new": {"task": [{"op": "yield", "x": "d1", "s": {"new": {"item": [0, 5, {"set": 5}]}}}, {"op": "yield", "x": "d2", "s": {"new": {"item": [0, 6, {"set": 6}]}}},
+                              {"op": "return", "e": {"var": "d2"}}]}}]}},
+        {"op": "return", "e": 0}]],
+    "params": {"kinds": {}, "model_blind": True},
+}
+_EXTRA = [(1, dict(_base, name="returns-future", p_ret_fut=0.4, p_let=0.25, p_item=0.55, nkinds=1)),
+          (2, dict(_base, name="diamonds", p_old=0.6, p_let=0.35, p_item=0.4, p_const=0.2, nkinds=1, budget=22)),
           (1, dict(_base, name="recover", p_try=0.4, p_raise=0.15, p_errfut=0.15, p_item_err=0.1, nkinds=1, budget=22))]
 
 mach.install(globals(), "C04", ("EvBefore", "EvFlush"), ("C04:",), PROFILES, n_quick=300, n_thorough=25000,
-             nontrivial=_nontrivial, case_filter=machmon.yield_only, level="proof", corpus=[_CATCH_THEN_BATCH, _DIAMOND],
+             nontrivial=_nontrivial, case_filter=machmon.yield_only, level="proof", corpus=[_CATCH_THEN_BATCH, _DIAMOND, _RETURNS_FUTURE],
              extra_gen=mach.extra_profiles(_EXTRA, 80, 5000))
